@@ -468,6 +468,15 @@ func (g *gen) rewritePkgRefs(info *types.Info, node ast.Node) ast.Node {
 		}
 		return false
 	}
+	// Names that occur anywhere in the copied node: a fresh name must not be
+	// one of them, or it would capture (or be captured by) another identifier.
+	usedNames := make(map[string]bool)
+	ast.Inspect(node, func(n ast.Node) bool {
+		if id, ok := n.(*ast.Ident); ok {
+			usedNames[id.Name] = true
+		}
+		return true
+	})
 	var scopeStack []*types.Scope
 	pkgScope := g.pkg.Types.Scope()
 	node = astutil.Apply(node, func(c *astutil.Cursor) bool {
@@ -501,7 +510,7 @@ func (g *gen) rewritePkgRefs(info *types.Info, node ast.Node) ast.Node {
 			return true
 		}
 		newName := disambiguate(objName, func(n string) bool {
-			if g.nameInFileScope(n) || inNewNames(n) {
+			if g.nameInFileScope(n) || inNewNames(n) || usedNames[n] {
 				return true
 			}
 			if len(scopeStack) > 0 {
